@@ -367,7 +367,8 @@ class HistogramDensityMethod(BatchDetector):
         self.total_epsilon = 0
 
         if self.detect_batch == 1:
-            self.update(test_proxy)
+            # pass the values only: the internal proxy batch must not establish column names
+            self.update(test_proxy.values)
 
     def _build_histograms(self, dataset, min_values, max_values):
         """
